@@ -1,6 +1,7 @@
 package engine
 
 import (
+	"sync/atomic"
 	"crypto/sha256"
 	"encoding/binary"
 	"encoding/hex"
@@ -444,7 +445,7 @@ func Worker(spec Spec, tier string, shard, n int, out, journal string) int {
 		last, since := int64(-1), time.Now()
 		for {
 			time.Sleep(2 * time.Second)
-			p := c.Progress()
+			p := c.Progress() + atomic.LoadInt64(&beats)<<32
 			if p != last {
 				last, since = p, time.Now()
 				continue
@@ -492,9 +493,12 @@ func Replay(spec Spec, file string) int {
 		for {
 			time.Sleep(time.Second)
 			if c.Progress() > 0 {
-				start := time.Now()
+				start, lastBeat := time.Now(), atomic.LoadInt64(&beats)
 				for c.Progress() == 1 && !c.replayDone.Load() {
 					time.Sleep(time.Second)
+					if b := atomic.LoadInt64(&beats); b != lastBeat {
+						start, lastBeat = time.Now(), b
+					}
 					if time.Since(start) > CaseDeadline {
 						fmt.Printf("VIOLATION property=%s replay=%s\n  clause=hang trigger=no-return-within-case-deadline\n  case %s/%d did not return within %s\n", spec.ID, file, rf.Group, rf.Index, CaseDeadline)
 						os.Exit(1)
